@@ -16,8 +16,11 @@ type keyBatchEvent struct {
 }
 
 // fetchKeys fetches keys for repos in batches, then close the keyBatchChan channel upon completion or error.
+//
+// Optional filters are applied to every page of keys after the end-of-listing test: a page
+// entirely filtered out must not be mistaken for the end of the listing.
 func fetchKeys(iterator func(string) ([]string, string, error), keyBatchChan chan<- keyBatchEvent,
-	doneChan <-chan struct{}, wg *sync.WaitGroup) {
+	doneChan <-chan struct{}, wg *sync.WaitGroup, filters ...func([]string) []string) {
 	defer func() {
 		close(keyBatchChan)
 		wg.Done()
@@ -46,6 +49,9 @@ func fetchKeys(iterator func(string) ([]string, string, error), keyBatchChan cha
 
 		if len(ks) == 0 {
 			break
+		}
+		for _, filter := range filters {
+			ks = filter(ks)
 		}
 
 		select {
